@@ -433,29 +433,29 @@ func init() {
 					inner := loopBody(b)
 					for ib := range inner {
 						for _, st := range storesIntoSlice(ib, tableMk) {
-							idx, _ := st.Addr.(*ssa.IndexAddr).Index.(*ssa.Phi)
+							idxV := st.Addr.(*ssa.IndexAddr).Index
 							cnt, _ := st.Val.(*ssa.Phi)
-							if idx == nil || cnt == nil || idx.Block() != b || cnt.Block() != b {
+							if cnt == nil || cnt.Block() != b || !inductionFromZero(idxV, b) {
 								continue
 							}
+							idx := idxV
 							okStep := true
 							for i, pr := range b.Preds {
 								if b.Dominates(pr) {
-									if !isPlusOne(idx.Edges[i], idx) || !isPlusOne(cnt.Edges[i], cnt) {
+									if !isPlusOne(cnt.Edges[i], cnt) {
 										okStep = false
 									}
-								} else {
-									if k, ok := constInt(idx.Edges[i]); !ok || k != 0 {
-										okStep = false
-									}
-									if counter != nil && cnt.Edges[i] != ssa.Value(counter) {
-										okStep = false
-									}
+								} else if counter != nil && cnt.Edges[i] != ssa.Value(counter) {
+									okStep = false
 								}
 							}
 							if ifi, ok := b.Instrs[len(b.Instrs)-1].(*ssa.If); ok && okStep {
-								if bin, ok := ifi.Cond.(*ssa.BinOp); ok && bin.Op == token.LSS && bin.X == ssa.Value(idx) {
+								if bin, ok := ifi.Cond.(*ssa.BinOp); ok && bin.Op == token.LSS && bin.X == idx {
 									if _, ok := numDocsOf(bin.Y); ok {
+										fillLoop[b] = true
+									}
+									// or the length of the table itself (which is make([]uint64, numDocs))
+									if xx, name, ok := lenOrCapOf(bin.Y); ok && name == "len" && xx == ssa.Value(tableMk) {
 										fillLoop[b] = true
 									}
 								}
@@ -822,6 +822,35 @@ func init() {
 			}
 		},
 	})
+}
+
+// inductionFromZero: v takes the values 0,1,2,… over the iterations of the loop
+// with header h: a phi (0, +1), or phi+1 of a rangeindex phi (-1, +1).
+func inductionFromZero(v ssa.Value, h *ssa.BasicBlock) bool {
+	check := func(phi *ssa.Phi, init int64, next ssa.Value) bool {
+		if phi.Block() != h {
+			return false
+		}
+		for i, pr := range h.Preds {
+			if h.Dominates(pr) {
+				if phi.Edges[i] != next && !isPlusOne(phi.Edges[i], phi) {
+					return false
+				}
+			} else if k, ok := constInt(phi.Edges[i]); !ok || k != init {
+				return false
+			}
+		}
+		return true
+	}
+	switch x := v.(type) {
+	case *ssa.Phi:
+		return check(x, 0, nil)
+	case *ssa.BinOp:
+		if phi, ok := x.X.(*ssa.Phi); ok && isPlusOne(x, phi) {
+			return check(phi, -1, x)
+		}
+	}
+	return false
 }
 
 func blockList(bs []*ssa.BasicBlock) string {
